@@ -17,13 +17,12 @@ import (
 	"github.com/fabiolb/fabio/config"
 	"github.com/fabiolb/fabio/metrics"
 	"github.com/fabiolb/fabio/registry"
-	"github.com/fabiolb/fabio/registry/consul"
 	"github.com/fabiolb/fabio/route"
 )
 
 // Verification driver (build tag verif) for property C01. Only when FABIO_VERIF_DRIVER=c01 is set, the
-// process connects the real consul backend to the Consul HTTP API named in FABIO_VERIF_C01 (a JSON
-// document, see verifC01Cfg), runs the real watchBackend loop in a goroutine and then serves commands on
+// process connects the real consul backend (through the real initBackend) to the Consul HTTP API named in
+// FABIO_VERIF_C01 (a JSON document, see verifC01Cfg), runs the real watchBackend loop in a goroutine and then serves commands on
 // stdin: "dump" prints the canonical dump of route.GetTable() as one JSON line, "idle" prints whether the
 // watchBackend goroutine is parked in its select, "hold"/"release" arm and open a gate in front of the real
 // backend's Register (the table loop then stays busy inside one iteration for as long as the harness wants),
@@ -146,12 +145,12 @@ func init() {
 	cc.CheckInterval = time.Second
 	cc.CheckTimeout = time.Second
 
-	be, err := consul.NewBackend(cc)
-	if err != nil {
-		fmt.Fprintln(os.Stderr, "verif c01: NewBackend:", err)
-		os.Exit(2)
-	}
-	gate := &verifC01Gate{Backend: be}
+	// the real start-up path: initBackend picks the consul arm, makes the backend with NewBackend and registers
+	// nothing (Register(nil), registration disabled); it exits the process if the backend cannot be reached
+	cfg.Registry.Timeout = 20 * time.Second
+	cfg.Registry.Retry = 100 * time.Millisecond
+	initBackend(cfg)
+	gate := &verifC01Gate{Backend: registry.Default}
 	gate.cond = sync.NewCond(&gate.mu)
 	registry.Default = gate
 	first := make(chan bool)
